@@ -940,7 +940,31 @@ def unordered_list_probe() -> Optional[C.Failing]:
 
 
 def search(ctx: C.Ctx, disagreements, broken) -> List[C.Failing]:
-    return oracle(ctx, C.Coverage(), n=40, seed=ctx.seed + 7919)
+    """directed: EVERY mutated pair of the correspondence (the oracle takes the files of the first ones only) on which the data
+    checker itself finds no difference is taken to the tool as two files; then the oracle with another seed"""
+    from basyx.aas import model
+    from basyx.aas.adapter.json import write_aas_json_file
+    out: List[C.Failing] = []
+    sigs = set()
+    d = tempfile.mkdtemp(prefix="verif-c20s-")
+    try:
+        for a, b, what in checker_pairs(ctx.seed, ctx.budget(300, 4000), all_zoo=ctx.tier != "quick"):
+            if what is None:
+                continue
+            for order, (x, y) in (("ab", (a, b)), ("ba", (b, a))):
+                if real_verdict(x, y) is True:
+                    p1, p2 = os.path.join(d, "s1.json"), os.path.join(d, "s2.json")
+                    write_aas_json_file(p1, model.DictObjectStore([x])); write_aas_json_file(p2, model.DictObjectStore([y]))
+                    r = run_check("json", "equivalence", p1, p2)
+                    sig = f"checker:missed:{what[0]}.{what[1]}"
+                    if r[0] == "ok" and r[2] == "SUCCESS" and sig not in sigs:
+                        sigs.add(sig)
+                        out.append(C.Failing(sig, f"files differing in {what[0]}.{what[1]} compare as equal (json, "
+                                             f"{'changed file second' if order == 'ab' else 'changed file first'})",
+                                             {"seed": ctx.seed, "pair": str(what), "fmt": "json", "check": "equivalence", "order": order}))
+    finally:
+        shutil.rmtree(d, ignore_errors=True)
+    return out or oracle(ctx, C.Coverage(), n=40, seed=ctx.seed + 7919)
 
 
 def replay(case) -> Optional[C.Failing]:
@@ -955,4 +979,8 @@ def replay(case) -> Optional[C.Failing]:
     for f in fs:
         if all(f.case.get(k) == v for k, v in case.items() if k in ("fmt", "check", "category", "pair")):
             return f
+    if "pair" in case and case.get("check") == "equivalence":
+        for f in search(C.Ctx("C20", "quick", case.get("seed", 0), random.Random(0), 0, 1), [], []):
+            if f.case.get("pair") == case["pair"]:
+                return f
     return None
